@@ -193,6 +193,36 @@ def h_reference(ex):
     ex.close(s3.values, ref_filter(ex, xs, Hv, N, dt, fr), 'scalar-fallback-int-at-dc', tol=TOL)
 
 
+def h_response_kept(ex):
+    """a vectorised response that hands out an array it keeps (tabulated/memoised, already
+    complex): filtering leaves that array untouched, and a second signal filtered with the
+    same response object gets the same reference transform as the first (the response is
+    an argument, not scratch space)."""
+    N, dt, fr = ex.case['N'], ex.case['dt'], ex.case['force_real']
+    xs = ex.reals('x', N, -1, 1)
+    ys = ex.reals('y', N, -1, 1)
+    H = Response(ex, N, dt)
+    kept = {}
+
+    def table(f):
+        if np.ndim(f) == 0:
+            return H(f)
+        key = tuple(float(x) for x in f)
+        if key not in kept:
+            arr = H(f)
+            kept[key] = (arr, [complex(v) if not ex.sym else v for v in arr])
+        return kept[key][0]
+    s = _signal(ex, N, dt, 0.0, xs)
+    s.filter_frequencies(table, force_real=fr)
+    for arr, snapshot in kept.values():
+        ex.close(list(arr), snapshot, 'response-array-not-modified', tol=0.0)
+    s2 = _signal(ex, N, dt, 0.0, ys)
+    s2.filter_frequencies(table, force_real=fr)
+    want = ref_filter(ex, ys, H, N, dt, fr if ex.twin != 'no-mirror' else False)
+    ex.close(s2.values, want, 'second-use-of-the-same-response==reference', tol=TOL)
+    ex.true(len(kept) >= 1, 'vectorised-path-taken')
+
+
 def h_delay(ex):
     """pure delay of m samples: y_i = x_{i-m} (i>=m), 0 (i<m): no wrap-around."""
     N, dt, fr, m = ex.case['N'], ex.case['dt'], ex.case['force_real'], ex.case['m']
@@ -294,6 +324,13 @@ HARNESSES = [
                    'thorough': [{'N': 3, 'dt': 1e-10, 'force_real': True, '_twins': 1}]
                    + _cases([2, 3, 4, 5, 6, 7, 8])},
             doc=h_reference.__doc__),
+    Harness('response-kept', h_response_kept, _mods, encodes=_enc, twins=('no-mirror',),
+            cases={'quick': [{'N': 3, 'dt': 1e-10, 'force_real': True, '_twins': 1},
+                             {'N': 4, 'dt': 1e-10, 'force_real': True},
+                             {'N': 3, 'dt': 1e-10, 'force_real': False}],
+                   'thorough': [{'N': 3, 'dt': 1e-10, 'force_real': True, '_twins': 1}]
+                   + _cases([2, 4, 5, 6])},
+            doc=h_response_kept.__doc__),
     Harness('delay', h_delay, _mods, encodes=_enc, twins=('wrap',),
             cases={'quick': [{'N': 4, 'dt': 1e-10, 'force_real': True, 'm': 1, '_twins': 1}]
                    + _delay_cases([2, 3, 4, 5], dts=(1e-10,)),
@@ -307,6 +344,25 @@ HARNESSES = [
                                                                         'wall_s': 900}},
             doc=h_passive.__doc__),
 ]
+
+def _function_signal_harness():
+    """filtering a function-backed signal (with buffers): C06's eager-definition oracle -
+    the function sampled on the buffer-extended grid, transformed ONCE at twice that
+    length, cropped to the signal's times - restricted to the filter sequences; a filter
+    applied to buffered content must not wrap it into the window"""
+    from harness import C06
+    h = [x for x in C06.HARNESSES if x.name == 'signal-sequences'][0]
+    seqs = [['setbuf', 'filter_real'], ['setbuf', 'filter'], ['with_times_sub', 'filter_real'],
+            ['filter_real', 'setbuf'], ['setbuf_force', 'filter_real']]
+    cases = {'quick': [{'n': 3, 'seq': s} for s in seqs[:3]] + [{'n': 4, 'seq': seqs[0]}],
+             'thorough': [{'n': n, 'seq': s} for s in seqs for n in (2, 3, 4)]}
+    cases['quick'][0]['_twins'] = 1
+    cases['thorough'][0]['_twins'] = 1
+    return Harness('function-signal-filter', h.fn, h.modules, cases=cases, twins=h.twins,
+                   encodes=h.encodes, budget=h.budget, doc=_function_signal_harness.__doc__)
+
+
+HARNESSES.append(_function_signal_harness())
 
 BOUNDS = {
     'quick': {'N': '2..5 samples (1..2 for the energy inequality)', 'dt': '1e-10 s and 1 s',
